@@ -178,4 +178,19 @@ PROPS = {
             {"name": "sampled", "budget_s": 600, "chunk": 20},
         ], "minimise_s": 120},
     },
+    "C02": {
+        "test": "TestC02",
+        "level": "exploration",
+        "world": "B: authorization-server node and client node, complete real RFC021 service-to-service flow over the simulated HTTP transport",
+        "rule": "each run: one scenario - a valid request, or exactly one named defect applied through the workload (revoked / expired credential, credential "
+                "about another subject, unknown scope, scope the wallet cannot fulfil), in transit (assertion signature or claim, submission definition id or "
+                "path, scope parameter, delivery delayed 20 s past the 5 s validity, duplicate delivery, delivery to another subject's token endpoint), or a "
+                "scope whose policy maps a credential field onto a reserved claim name - with bearer or DPoP tokens; issued tokens are introspected at issuance, "
+                "at a seeded moment before expiry and after expiry. Distinct = (scenario, token type, variant) signatures; 'measurements' counts issued/refused per scenario.",
+        "invariants": ["C02.issue", "C02.introspect"],
+        "assumptions": ["only the service-to-service (vp_token-bearer) grant; the authorization-code grant needs the browser-facing flow and is not driven",
+                        "single defects only; combinations of defects are not generated"],
+        "quick": {"budget_s": 75, "chunk": 20},
+        "thorough": {"budget_s": 900, "chunk": 20, "minimise_s": 60},
+    },
 }
